@@ -251,12 +251,66 @@ type feItem struct {
 func (r *Runner) sketchObs(e *skEntry, withSum bool) string {
 	s := e.sk()
 	var fe []feItem
-	calls := 0
-	s.ForEach(func(value, count float64) bool {
-		calls++
-		fe = append(fe, feItem{value, ratOf(count)})
-		return false
-	})
+	var count, sum float64
+	var empty bool
+	var mn, mx float64
+	var errMn, errMx error
+	// the observers run in a different order each time (the answers are printed in a fixed one): a
+	// read that only works after another read has reorganised the store must not go unnoticed
+	obs := []func(){
+		func() {
+			s.ForEach(func(value, count float64) bool {
+				fe = append(fe, feItem{value, ratOf(count)})
+				return false
+			})
+		},
+		func() {
+			if e.exact != nil {
+				count = e.exact.GetCount()
+			} else {
+				count = s.GetCount()
+			}
+		},
+		func() {
+			if e.exact != nil {
+				sum = e.exact.GetSum()
+			} else {
+				sum = s.GetSum()
+			}
+		},
+		func() {
+			if e.exact != nil {
+				empty = e.exact.IsEmpty()
+			} else {
+				empty = s.IsEmpty()
+			}
+		},
+		func() {
+			if e.exact != nil {
+				mn, errMn = e.exact.GetMinValue()
+			} else {
+				mn, errMn = s.GetMinValue()
+			}
+		},
+		func() {
+			if e.exact != nil {
+				mx, errMx = e.exact.GetMaxValue()
+			} else {
+				mx, errMx = s.GetMaxValue()
+			}
+		},
+	}
+	r.obsMode++
+	k := r.obsMode % len(obs)
+	if (r.obsMode/len(obs))%2 == 0 {
+		for i := range obs {
+			obs[(k+i)%len(obs)]()
+		}
+	} else {
+		for i := range obs {
+			obs[(k+len(obs)-i)%len(obs)]()
+		}
+	}
 	sort.SliceStable(fe, func(i, j int) bool { return fe[i].v < fe[j].v })
 	parts := make([]string, len(fe))
 	for i, f := range fe {
@@ -265,19 +319,6 @@ func (r *Runner) sketchObs(e *skEntry, withSum bool) string {
 	feS := "-"
 	if len(parts) > 0 {
 		feS = strings.Join(parts, ",")
-	}
-	var count, sum float64
-	var empty bool
-	var mn, mx float64
-	var errMn, errMx error
-	if e.exact != nil {
-		count, sum, empty = e.exact.GetCount(), e.exact.GetSum(), e.exact.IsEmpty()
-		mn, errMn = e.exact.GetMinValue()
-		mx, errMx = e.exact.GetMaxValue()
-	} else {
-		count, sum, empty = s.GetCount(), s.GetSum(), s.IsEmpty()
-		mn, errMn = s.GetMinValue()
-		mx, errMx = s.GetMaxValue()
 	}
 	sumS := "skip"
 	if withSum {
